@@ -202,7 +202,9 @@ def sx(s):
             out.append("\\n")
         elif c == "\t":
             out.append("\\t")
-        elif o < 32 or o > 126:
+        elif o < 32 or (126 < o < 256):
+            out.append("\\x%02x" % o)      # one char = one byte (latin-1 view of binary data)
+        elif o >= 256:
             for b in c.encode("utf-8"):
                 out.append("\\x%02x" % b)
         else:
